@@ -221,16 +221,21 @@ def compute_skel(tu, t):
             r = find_call(cc, name)
             if r: return r
     fc = find_call({'inner': body[:body.index(f)]}, 'factorize_from')
-    env = {'maxit': ('maxit', 'int'), 'nconv': ('nconv', 'int'), 'i': ('i', 'int')}
-    f0, _ = fn.expr(fc['inner'][1], env); f1, _ = fn.expr(fc['inner'][2], env)
     init, _, cond, inc, lbody = f['inner']
-    if not (init['kind'] == 'BinaryOperator' and init['opcode'] == '='): raise XlateError('compute: for-init')
+    if not (init and init['kind'] == 'BinaryOperator' and init['opcode'] == '='): raise XlateError('compute: for-init')
+    def _ref(x):
+        while x.get('kind') in ('ParenExpr', 'ImplicitCastExpr'): x = x['inner'][0]
+        return (x.get('referencedDecl') or {}).get('name') if x.get('kind') == 'DeclRefExpr' else None
+    lv = _ref(init['inner'][0])     # the loop counter, called `i` in the generated text whatever its name in the source
+    if not lv: raise XlateError('compute: for-init does not assign a plain counter')
+    env = {'maxit': ('maxit', 'int'), 'nconv': ('nconv', 'int'), lv: ('i', 'int')}
+    f0, _ = fn.expr(fc['inner'][1], env); f1, _ = fn.expr(fc['inner'][2], env)
     lo, _ = fn.expr(init['inner'][1], env)
     c = cond
     while c['kind'] in ('ParenExpr',): c = c['inner'][0]
-    if not (c['kind'] == 'BinaryOperator' and c['opcode'] == '<'): raise XlateError('compute: for-condition')
+    if not (c['kind'] == 'BinaryOperator' and c['opcode'] == '<' and _ref(c['inner'][0]) == lv): raise XlateError('compute: for-condition')
     hi, _ = fn.expr(c['inner'][1], env)
-    if not (inc['kind'] == 'UnaryOperator' and inc['opcode'] == '++'): raise XlateError('compute: for-increment')
+    if not (inc['kind'] == 'UnaryOperator' and inc['opcode'] == '++' and _ref(inc['inner'][0]) == lv): raise XlateError('compute: for-increment')
     ss = fn.body_list(lbody)
     names = []
     for s in ss:
